@@ -208,14 +208,17 @@ def apStep (s : List Nat) (off : Int) (acc : List Nat × Bool) (k : Nat) : List 
 
 theorem applyPat_eq (h : List Nat) (n i : Nat) (s : List Nat) :
     applyPat h n i s =
-      (List.range (min (s.length : Int) ((n : Int) - ((i : Int) + 1 - (s.length : Int)))).toNat).foldl
+      (List.range' (if (i : Int) + 1 - (s.length : Int) < 0 then (-((i : Int) + 1 - (s.length : Int))).toNat else 0)
+        ((min (s.length : Int) ((n : Int) - ((i : Int) + 1 - (s.length : Int)))).toNat -
+          (if (i : Int) + 1 - (s.length : Int) < 0 then (-((i : Int) + 1 - (s.length : Int))).toNat else 0))).foldl
         (apStep s ((i : Int) + 1 - (s.length : Int))) (h, false) := rfl
 
-theorem apFold (s : List Nat) (o : Nat) (h : List Nat) (m : Nat) :
-    ((List.range m).foldl (apStep s (o : Int)) (h, false)).2 = false ∧
-    ((List.range m).foldl (apStep s (o : Int)) (h, false)).1.length = h.length ∧
-    ∀ q, ((List.range m).foldl (apStep s (o : Int)) (h, false)).1.getD q 0 =
-      if o ≤ q ∧ q < o + m ∧ q < h.length then max (h.getD q 0) (s.getD (q - o) 0) else h.getD q 0 := by
+/-- the max loop from `k0` on, when the first index `off + k0 = o` is not negative -/
+theorem apFold (s : List Nat) (off : Int) (k0 o : Nat) (ho : off + (k0 : Int) = (o : Int)) (h : List Nat) (m : Nat) :
+    ((List.range' k0 m).foldl (apStep s off) (h, false)).2 = false ∧
+    ((List.range' k0 m).foldl (apStep s off) (h, false)).1.length = h.length ∧
+    ∀ q, ((List.range' k0 m).foldl (apStep s off) (h, false)).1.getD q 0 =
+      if o ≤ q ∧ q < o + m ∧ q < h.length then max (h.getD q 0) (s.getD (k0 + (q - o)) 0) else h.getD q 0 := by
   induction m with
   | zero =>
     refine ⟨rfl, rfl, ?_⟩
@@ -224,10 +227,10 @@ theorem apFold (s : List Nat) (o : Nat) (h : List Nat) (m : Nat) :
     rw [if_neg this]; rfl
   | succ m ih =>
     obtain ⟨i1, i2, i3⟩ := ih
-    rw [List.range_succ, List.foldl_append]
-    generalize (List.range m).foldl (apStep s (o : Int)) (h, false) = r at i1 i2 i3
-    have hidx : ¬ ((o : Int) + (m : Int) < 0) := by omega
-    have htn : ((o : Int) + (m : Int)).toNat = o + m := by omega
+    rw [List.range'_concat, List.foldl_append]
+    generalize (List.range' k0 m).foldl (apStep s off) (h, false) = r at i1 i2 i3
+    have hidx : ¬ (off + ((k0 + 1 * m : Nat) : Int) < 0) := by omega
+    have htn : (off + ((k0 + 1 * m : Nat) : Int)).toNat = o + m := by omega
     simp only [List.foldl_cons, List.foldl_nil, apStep, hidx, if_false, htn]
     refine ⟨i1, by rw [maxAt_length, i2], ?_⟩
     intro q
@@ -237,11 +240,12 @@ theorem apFold (s : List Nat) (o : Nat) (h : List Nat) (m : Nat) :
       by_cases hl : o + m < h.length
       · have e1 : ¬ (o ≤ o + m ∧ o + m < o + m ∧ o + m < h.length) := by omega
         have e2 : (o ≤ o + m ∧ o + m < o + (m + 1) ∧ o + m < h.length) := by omega
-        have e3 : o + m - o = m := by omega
-        simp [e2, e3]
+        have e3 : k0 + (o + m - o) = k0 + 1 * m := by omega
+        rw [if_pos ⟨rfl, hl⟩, if_neg e1, if_pos e2, e3]
       · have e1 : ¬ (o ≤ o + m ∧ o + m < o + m ∧ o + m < h.length) := by omega
         have e2 : ¬ (o ≤ o + m ∧ o + m < o + (m + 1) ∧ o + m < h.length) := by omega
-        simp [hl]
+        have e0 : ¬ (o + m = o + m ∧ o + m < h.length) := fun hh => hl hh.2
+        rw [if_neg e0, if_neg e1, if_neg e2]
     · have e0 : ¬ (q = o + m ∧ q < h.length) := by omega
       rw [if_neg e0]
       by_cases c : o ≤ q ∧ q < o + m ∧ q < h.length
@@ -250,29 +254,32 @@ theorem apFold (s : List Nat) (o : Nat) (h : List Nat) (m : Nat) :
       · have c' : ¬ (o ≤ q ∧ q < o + (m + 1) ∧ q < h.length) := by omega
         rw [if_neg c, if_neg c']
 
-/-- `applyPat` when the pattern string does not reach in front of the array
-    (`patternOffset ≥ 0`): no negative index, same length, and position `q` becomes the
-    maximum with the digit aligned there -/
-theorem applyPat_spec (h : List Nat) (n i : Nat) (s : List Nat) (hn : h.length = n)
-    (hoff : s.length ≤ i + 1) :
+/-- `applyPat` for ANY pattern string: no negative index is touched, the length is kept, and
+    position `q` becomes the maximum with the digit aligned there; a digit that would lie in
+    front of the array (pattern longer than the text read) is skipped -/
+theorem applyPat_spec (h : List Nat) (n i : Nat) (s : List Nat) (hn : h.length = n) :
     (applyPat h n i s).2 = false ∧ (applyPat h n i s).1.length = n ∧
     ∀ q, (applyPat h n i s).1.getD q 0 =
       if i + 1 - s.length ≤ q ∧ q < i + 1 ∧ q < n then
-        max (h.getD q 0) (s.getD (q - (i + 1 - s.length)) 0) else h.getD q 0 := by
-  have eo : ((i : Int) + 1 - (s.length : Int)) = ((i + 1 - s.length : Nat) : Int) := by omega
-  rw [applyPat_eq, eo]
-  obtain ⟨a1, a2, a3⟩ := apFold s (i + 1 - s.length) h
-    (min (s.length : Int) ((n : Int) - ((i + 1 - s.length : Nat) : Int))).toNat
+        max (h.getD q 0) (s.getD (s.length - (i + 1) + (q - (i + 1 - s.length))) 0) else h.getD q 0 := by
+  rw [applyPat_eq]
+  have ek : (if (i : Int) + 1 - (s.length : Int) < 0 then (-((i : Int) + 1 - (s.length : Int))).toNat else 0)
+      = s.length - (i + 1) := by
+    split <;> omega
+  rw [ek]
+  obtain ⟨a1, a2, a3⟩ := apFold s ((i : Int) + 1 - (s.length : Int)) (s.length - (i + 1)) (i + 1 - s.length)
+    (by omega) h
+    ((min (s.length : Int) ((n : Int) - ((i : Int) + 1 - (s.length : Int)))).toNat - (s.length - (i + 1)))
   refine ⟨a1, by rw [a2, hn], ?_⟩
   intro q
   rw [a3, hn]
   by_cases c : i + 1 - s.length ≤ q ∧ q < i + 1 ∧ q < n
   · have c' : i + 1 - s.length ≤ q ∧
-        q < i + 1 - s.length + (min (s.length : Int) ((n : Int) - ((i + 1 - s.length : Nat) : Int))).toNat ∧ q < n := by
+        q < i + 1 - s.length + ((min (s.length : Int) ((n : Int) - ((i : Int) + 1 - (s.length : Int)))).toNat - (s.length - (i + 1))) ∧ q < n := by
       omega
     rw [if_pos c, if_pos c']
   · have c' : ¬ (i + 1 - s.length ≤ q ∧
-        q < i + 1 - s.length + (min (s.length : Int) ((n : Int) - ((i + 1 - s.length : Nat) : Int))).toNat ∧ q < n) := by
+        q < i + 1 - s.length + ((min (s.length : Int) ((n : Int) - ((i : Int) + 1 - (s.length : Int)))).toNat - (s.length - (i + 1))) ∧ q < n) := by
       omega
     rw [if_neg c, if_neg c']
 
